@@ -33,12 +33,14 @@ def event_options():
         # event density stays realistic (an interval of one 90 kHz tick means 360000 emsg boxes per segment:
         # bounded, but minutes of CPU - that is exercised by C16 only)
         def build(ts):
-            return st.fixed_dictionaries({f"{prefix}__timescale": st.just(str(ts))}, optional={
+            return st.fixed_dictionaries({
+                f"{prefix}__timescale": st.just(str(ts)),
+                f"{prefix}__interval": st.one_of(st.integers(100, 30000), st.sampled_from([1000, 4000, 10000])).map(
+                    lambda ms: str(max(1, ms * ts // 1000))),
+            }, optional={
                 f"{prefix}__count": st.integers(0, 30).map(str),
                 f"{prefix}__duration": st.integers(1, 2000).map(str),
                 f"{prefix}__inband": st.sampled_from(["1", "0"]),
-                f"{prefix}__interval": st.one_of(st.integers(100, 30000), st.sampled_from([1000, 4000, 10000])).map(
-                    lambda ms: str(max(1, ms * ts // 1000))),
                 f"{prefix}__start": st.integers(0, 60000).map(lambda ms: str(ms * ts // 1000)),
                 f"{prefix}__version": st.sampled_from(["0", "1"]),
             })
